@@ -21,7 +21,7 @@ import numpy as np
 
 from .. import tlc, ftable
 from ..common import Report, MachineryError, seed, quiet, WORK
-from ._c1314_util import (tlc_jobs, validate_parallel, validate_records, lib_call, run_parts, DuckDataKBase, candidate_finding, uniq,
+from ._c1314_util import (tlc_jobs, validate_parallel, validate_records, lib_call, run_parts, DuckDataKBase, uniq,
                           PrivateGone)
 
 PROPS = {
@@ -48,8 +48,8 @@ PROPS = {
                      "group counts as occupied is not demanded; the code uses the mean). select_bands with fder=0 is refused by the code "
                      "(NotImplementedError) and not exercised; hole_like only flips the sign (no documented semantics) and is not "
                      "exercised; <= 4 bands when a band selection is used (weights are kept as integers/12). Kramers mode is exercised "
-                     "with an even number of bands; with an odd number the highest band is in no group and CumDOS saturates at "
-                     "num_wann - 1: reported as CANDIDATE-FINDING CumDOS:kramers:odd_num_wann, not a VIOLATION.",
+                     "on paired input with even and odd numbers of bands (odd: the highest band has no partner and forms or joins the last "
+                     "group; CumDOS reaches num_wann above all bands).",
                 ref="DESIGN.md 3.5, 7.2"),
 }
 
@@ -216,7 +216,7 @@ def py_borders(E, th, kr):
     """Bands.Borders in Python (choice of admissible random inputs only; TLC checks the clause `admissible` again)"""
     b = [0] + [i for i in range(1, len(E)) if E[i] - E[i - 1] > th] + [len(E)]
     if kr:
-        b = [i for i in b if i % 2 == 0]
+        b = [i for i in b if i % 2 == 0 or i == len(E)]
     return list(zip(b, b[1:]))
 
 
@@ -271,6 +271,7 @@ def replay_state(rep, s, cls, idx):
     cls["kres"] += kres
     cls["select"] += sel is not None
     cls["kramers"] += kr
+    cls["kramers_odd_num_wann"] += kr and nb % 2 == 1
     cls["single_level"] += grid["n"] == 1
     cls["single_level_nonzero"] += grid["n"] == 1 and nontrivial
     cls["wide_group"] += any(Ek[b - 1] > Ek[a] for Ek in E for a, b in py_borders(Ek, th, kr))
@@ -334,7 +335,7 @@ def model_runs(thorough):
 def part_model(rep, thorough, rng):
     runs = model_runs(thorough)
     cls = {k: 0 for k in ["fder0", "fder1", "fder2", "fder3", "kres", "select", "kramers", "branch_below", "branch_bin", "branch_seagroup",
-                          "fd_relation", "real_CumDOS", "real_DOS", "real_Identity", "real_select", "use_factor_false", "single_level",
+                          "kramers_odd_num_wann", "fd_relation", "real_CumDOS", "real_DOS", "real_Identity", "real_select", "use_factor_false", "single_level",
                           "single_level_nonzero", "wide_group"]}
     # sensitivity: binning with floor instead of ceil must be rejected by TLC
     sens = dict(NK=1, NBS="{1, 2}", EMAX=2, THS="{0}", QS="{2}", AS1="{0, 2}", ASHIFT=3, DS="{2}", NS="{3}", SELS="{{}}", WrongBinning="TRUE")
@@ -376,21 +377,14 @@ def part_model(rep, thorough, rng):
 
 
 def part_kramers_odd(rep):
-    """candidate finding (not excluded silently): degen_Kramers=True with an odd number of Wannier functions"""
+    """explicit deciding case next to the model's states: degen_Kramers=True with an odd number of Wannier functions, CumDOS above all bands"""
     E, grid = [[0, 1, 2]], dict(Q=1, a=-1, d=2, n=3)          # levels -1, 1, 3 (units 1/8): the last one is above all bands
-    try:
-        gd = run_real_dos(E, 0, True, grid, 0, None, False)
-    except Exception as ex:
-        rep.part("kramers_odd_num_wann", not_evaluated=f"{type(ex).__name__}: {str(ex)[:200]}")
-        return
-    if abs(gd[0, -1] - 3) > 1e-12:
-        candidate_finding(rep, "CumDOS:kramers:odd_num_wann",
-                          dict(call="CumDOS(Efermi=[-0.125, 0.125, 0.375], degen_thresh=0, degen_Kramers=True) on one k-point with E_K = [0, 0.125, 0.25]",
-                               got=gd[0].tolist(), expected_above_all_bands=3,
-                               cause="get_borders(degen_Kramers=True) keeps even borders only and drops len(E) when it is odd: the highest band is in no group",
-                               statement="the cumulative DOS equals the number of Wannier functions above all bands"))
-    else:
-        rep.part("kramers_odd_num_wann", cumdos_saturates_at_num_wann=True)
+    inputs = dict(E=E, unit=U, th=0, kramers=True, grid=grid, fder=0)
+    ok, gd = call(rep, "CumDOS", inputs, run_real_dos, E, 0, True, grid, 0, None, False)
+    rep.case(("kramers_odd", 3))
+    if ok and (gd.shape != (1, 3) or abs(gd[0, -1] - 3) > 1e-12 or abs(gd[0, 0]) > 1e-12):
+        rep.violation("CumDOS:above_all_bands", dict(inputs, got=gd.tolist(), num_wann=3,
+                                                      note="degen_Kramers=True with an odd number of bands: the highest band must stay in a group"))
 
 
 def integral(x):
@@ -403,7 +397,7 @@ def integral(x):
 def part_records(rep, thorough, rng):
     recs = []
     nrec = 1500 if thorough else 180
-    stats = dict(kramers=0, select=0, fder0=0, fder3=0, nonadditive=0, single_level=0, wide_group=0)
+    stats = dict(kramers=0, kramers_odd=0, select=0, fder0=0, fder3=0, nonadditive=0, single_level=0, wide_group=0)
     tries = 0
     nonint = 0
     while len(recs) < nrec:
@@ -414,7 +408,7 @@ def part_records(rep, thorough, rng):
         nb = rng.randint(1, 4)
         single = rng.random() < 0.12
         th = 0 if single else rng.choice([0, 1, 2, 3])
-        kr = nb % 2 == 0 and rng.random() < 0.3
+        kr = rng.random() < 0.3
         E = []
         for _ in range(nk):
             if kr:
@@ -422,6 +416,8 @@ def part_records(rep, thorough, rng):
                 Ek = sorted(x + dx for x in half for dx in (0, rng.randint(0, th)))
                 if any(Ek[2 * j + 1] - Ek[2 * j] > th for j in range(nb // 2)):
                     Ek = [x for x in half for _ in (0, 1)]
+                if nb % 2:
+                    Ek = Ek + [(Ek[-1] if Ek else rng.randint(0, 40)) + rng.randint(0, 6)]       # the highest band has no partner
             else:
                 Ek = sorted(rng.choice([0, 5, 5, 9, 17, 30]) + rng.randint(0, 4) for _ in range(nb))
             E.append(Ek)
@@ -472,6 +468,7 @@ def part_records(rep, thorough, rng):
         recs.append(dict(E=E, V=V, th=th, kr=kr, grid=grid, fder=fder, selon=sel is not None, sel=sel or [], additive=additive,
                          outK=outs[True], outU=outs[False][0]))
         stats["kramers"] += kr
+        stats["kramers_odd"] += kr and nb % 2 == 1
         stats["select"] += sel is not None
         stats["fder0"] += fder == 0
         stats["fder3"] += fder == 3
